@@ -31,9 +31,13 @@ import copy
 from email.generator import BytesGenerator
 from email.parser import BytesParser
 from email.policy import SMTP
+from email.headerregistry import HeaderRegistry
 from io import BytesIO
 
 __all__ = ['Envelope']
+
+_UNSTRUCTURED = SMTP.clone(
+    header_factory=HeaderRegistry(use_default_map=False))
 
 _HEADER_BOUNDARY = re.compile(br'\r?\n\s*?\n')
 _LINE_BREAK = re.compile(br'\r?\n')
@@ -87,18 +91,25 @@ class Envelope(object):
         self.timestamp = None
 
     def _parse_data(self, data, *extra):
-        return BytesParser(policy=SMTP).parse(BytesIO(data), *extra)
+        try:
+            return BytesParser(policy=SMTP).parse(BytesIO(data), *extra)
+        except Exception:
+            # The structured header parsers of the email package raise on
+            # some malformed fields (e.g. 'Content-Type: text/plain; name *'):
+            # keep such a message, with every header taken as plain text.
+            return BytesParser(policy=_UNSTRUCTURED).parse(BytesIO(data),
+                                                           *extra)
 
     def _msg_generator(self, msg):
         outfp = BytesIO()
         try:
             BytesGenerator(outfp, policy=SMTP).flatten(msg, False)
-        except (UnicodeError, IndexError):
-            # Re-folding an over-long header line that holds undecodable
-            # bytes fails inside the email package: emit such headers as
-            # they were received.
+        except Exception:
+            # Re-folding an over-long header line fails inside the email
+            # package for undecodable bytes and for some malformed address
+            # lists: emit such headers as they were received.
             outfp = BytesIO()
-            policy = SMTP.clone(refold_source='none')
+            policy = _UNSTRUCTURED.clone(refold_source='none')
             BytesGenerator(outfp, policy=policy).flatten(msg, False)
         return outfp.getvalue()
 
